@@ -114,6 +114,58 @@ theorem decode_cap_independent_dot1q (old : Dot1Q) (data foreign : Bytes) :
       omega
     rw [Dot1Q.decode_long old _ (by omega), Dot1Q.decode_long old ⟨data, []⟩ h']
 
+/-- The packet path of Dot1Q (`decodeDot1Q` = `decodingLayerDecoder`): the layer added to a packet is
+    the one a direct `DecodeFromBytes` into any re-used object yields; it is added exactly when that
+    decode succeeds; the next decoder is `LayerType(NextLayerType())`, or none when that is zero. -/
+theorem packet_layer_eq_direct_dot1q (old : Dot1Q) (d : GSlice) :
+    ∃ o, old.decodeFromBytes d = .ok o ∧
+      ((o.err = true ∧ ∃ b, decodeDot1QFn d = .ok (b, none) ∧ b.tail = .fail ∧
+          b.acts = [Act.setTruncated]) ∨
+       (o.err = false ∧ o.trunc = false ∧ ∃ b, decodeDot1QFn d = .ok (b, some o.layer) ∧
+          b.acts = [Act.addLayer LayerTypeDot1Q] ∧
+          b.tail = (if o.layer.nextLayerType = LayerTypeZero then Tail.done
+                    else Tail.nextLayerType o.layer.nextLayerType))) := by
+  by_cases hs : d.len < 4
+  · refine ⟨_, Dot1Q.decode_short old d hs, Or.inl ⟨rfl, ?_⟩⟩
+    unfold decodeDot1QFn
+    rw [Dot1Q.decode_short _ d hs, Res.bind_ok]
+    exact ⟨_, rfl, rfl, rfl⟩
+  · have hl : 4 ≤ d.len := by omega
+    refine ⟨_, Dot1Q.decode_long old d hl, Or.inr ⟨rfl, rfl, ?_⟩⟩
+    unfold decodeDot1QFn
+    rw [Dot1Q.decode_long _ d hl, Res.bind_ok]
+    have he : (dot1qDecSpec d.vis).err = false := rfl
+    have ht : (dot1qDecSpec d.vis).trunc = false := rfl
+    simp only [he, ht, pure]
+    by_cases hz : (dot1qDecSpec d.vis).layer.nextLayerType = LayerTypeZero
+    · simp only [hz, if_true]; exact ⟨_, rfl, rfl, rfl⟩
+    · simp only [hz, if_false]; exact ⟨_, rfl, rfl, rfl⟩
+
+/-! ## The parser over both layers (one object per type, re-used for stacked tags / Ethernet in Ethernet) -/
+
+/-- No stale state through `DecodingLayerParser.DecodeLayers`: whatever the two layer objects held
+    from earlier packets, the run returns the same error code, the same list of decoded types, the
+    same truncation flag, and every layer object whose type is in that list holds the same value
+    (`DlpAgree`).  (An object whose type was not decoded keeps its old value — the caller is told
+    by the list not to read it.) -/
+theorem dlp_resets (e1 e2 : Ethernet) (q1 q2 : Dot1Q) (d : GSlice) :
+    ∃ r1 r2 c, dlpDecodeLayers e1 q1 d = .ok (r1, c) ∧ dlpDecodeLayers e2 q2 d = .ok (r2, c) ∧
+      DlpAgree r1 r2 :=
+  dlpLoop_agree _ _ _ _ _ ⟨rfl, rfl, fun h => absurd h (List.not_mem_nil), fun h => absurd h (List.not_mem_nil)⟩
+
+/-- … and it does not depend on the capacity of the packet buffer or the bytes behind the input. -/
+theorem dlp_cap_independent (eth : Ethernet) (dot1q : Dot1Q) (v t1 t2 : Bytes) :
+    dlpDecodeLayers eth dot1q { vis := v, tail := t1 } = dlpDecodeLayers eth dot1q { vis := v, tail := t2 } :=
+  dlpLoop_cap _ _ _ v t1 t2
+
+/-- Non-vacuity: a QinQ frame — the parser's single Dot1Q object is written twice in one run and
+    ends up holding the inner tag. -/
+example :
+    (match dlpDecodeLayers Ethernet.fresh Dot1Q.fresh
+        { vis := [1,2,3,4,5,6, 7,8,9,10,11,12, 0x88,0xa8, 0x20,0x05,0x81,0x00, 0xe0,0x07,0x12,0x34, 0xAA], tail := [] } with
+     | .ok (s, c) => some (s.decoded, c, s.dot1q.vlan, s.dot1q.priority, s.dot1q.type)
+     | _ => none) = some ([17, 15, 15], 0, 7, 7, 0x1234) := by decide
+
 /-! ## Non-vacuity: a receiver full of stale data, spare capacity full of foreign bytes -/
 
 example :
